@@ -48,6 +48,10 @@ def pivot():
     ], note="doc lines split by other attributes (strum / allow) between them"))
     S.append(EnumSpec("Prefixed", [U("DarkRed"), U("Blue", serialize=["b", "blue"], message="m"), U("Off", disabled=True)], prefix="colour/",
                       serialize_all="kebab-case", note="enum-wide prefix: get_serializations lists the PARSE spellings, which never carry the prefix"))
+    S.append(EnumSpec("Edge", [
+        U("Block", docs=[" first\n second"]), U("BlockNl", docs=["a\n"]), U("EmptyDet", message="m", detailed_message=""),
+        U("OnlyEmptyDet", detailed_message=""), U("EmptyMsg", message=""), U("SpaceDet", detailed_message=" "),
+    ], note="one doc attribute containing a line break (block comment shape); empty-string message / detailed_message"))
     S.append(EnumSpec("DisEnds", [U("First", disabled=True, message="x"), U("Mid", message="mid", docs=[" md"]), U("Last", disabled=True, docs=[" l"])],
                       serialize_all="SCREAMING_SNAKE_CASE", note="disabled in first and last position, serialize_all on their serializations"))
     return S
